@@ -352,4 +352,31 @@ def r_shared_r9(ctx):
 
 EXPLANATION = EXPLANATION + ' (R9) the sending sequence number visits every ring value once per turn: SeqNum addition wraps from M to 1 and never yields 0 (shared C08.R1); a wrap that revisits a value inside one clock second repeats a nonce.'
 
-RULES = [("C03.R1", r1), ("C03.R2", r2), ("C03.R3", r3), ("C03.R4", r4), ("C03.R5", r5), ("C03.R6", r6), ("C03.R7", r7), ("C03.R8", r_enum), ("C03.R9", r_shared_r9)]
+def r10(ctx):
+    """the type of a datagram is the type of its first message, and a SERVER_HELLO datagram is the one kind that leaves in clear while a
+    key is set (R5).  That exemption is safe only while a hello message can head a datagram once, before the session is CONNECTED: every
+    _send_type(PacketType.SERVER_HELLO / CLIENT_HELLO, ...) of the package passes RetryMode.NONE, so the message never enters the retry
+    queues (retried messages are packed first and would decide the type of later datagrams, taking the application messages behind them
+    out in clear)."""
+    from engine.fold import EnumVal
+    st = ctx.fn("connection:ConnectionBase._send_type")
+    pos = st.params.index("retry") - 1 if "retry" in st.params else None
+    n = 0
+    for (f, c) in package_calls(ctx.repo, "_send_type"):
+        if not c.args:
+            continue
+        t = ctx.folder.fold(c.args[0], f.module, cls=f.cls)
+        if not (isinstance(t, EnumVal) and t.member in ("SERVER_HELLO", "CLIENT_HELLO")):
+            continue
+        n += 1
+        arg = c.args[pos] if pos is not None and pos < len(c.args) else next((k.value for k in c.keywords if k.arg == "retry"), None)
+        rv = ctx.folder.fold(arg, f.module, cls=f.cls) if arg is not None else None
+        ctx.check(isinstance(rv, EnumVal) and rv.member == "NONE", "C03.R10", f, "%s is queued with RetryMode.NONE" % t.member,
+                  "a hello that is re-sent heads later datagrams: they are typed as hellos and leave in clear with the application messages packed behind them",
+                  witness=repr(rv), line=c.lineno)
+    ctx.expect("C03.R10", "hello messages queued through _send_type", n, 2)
+
+
+EXPLANATION = EXPLANATION + ' (R10) hello messages are queued with RetryMode.NONE: the clear-text exemption of SERVER_HELLO datagrams (R5) cannot be carried over to later datagrams by a retried hello heading them.'
+
+RULES = [("C03.R1", r1), ("C03.R2", r2), ("C03.R3", r3), ("C03.R4", r4), ("C03.R5", r5), ("C03.R6", r6), ("C03.R7", r7), ("C03.R8", r_enum), ("C03.R9", r_shared_r9), ("C03.R10", r10)]
